@@ -112,8 +112,8 @@ impl Check for C03 {
     fn plan(&self, tier: Tier) -> Vec<Section> {
         match tier {
             Tier::Quick => vec![
-                Section { name: "small-streams-every-cut", runs: 2_000 },
-                Section { name: "large-streams-sampled-cuts", runs: 600 },
+                Section { name: "small-streams-every-cut", runs: 6_000 },
+                Section { name: "large-streams-sampled-cuts", runs: 1_800 },
             ],
             Tier::Thorough => vec![
                 Section { name: "small-streams-every-cut", runs: 60_000 },
